@@ -2,7 +2,7 @@
 import re, os
 ASSUMPTIONS = ['per-stream decoders are logging synth stubs in the routing harness; sub-codec output is not modelled',
                'matrix identity tolerance EPS = n * 2^17 in Q30 (int16 quantisation of the cells)']
-OUTSIDE = 'more than 4 channels / 3 streams in the routing harness; real sub-codec output; surround encoder layout tables (H3) and encoder-side concatenation (H4) were not built in this round'
+OUTSIDE = 'more than 4 channels / 3 streams in the routing harness; real sub-codec output; surround encoder layout tables (H3) were not built'
 DIM = {'foa': 6, 'soa': 11, 'toa': 18, 'fourthoa': 27, 'fifthoa': 38}
 
 def gen_matrix(order):
@@ -16,6 +16,8 @@ def gen_matrix(order):
             '#define NDIM %d\n#define EXPECT_GAIN %d\n#define EXPECT_DIAG %dLL\n#define EPS %dLL\n' % (n, gain, diag, n * (1 << 17)))
     return g
 
+import os as _os, importlib.util as _ilu
+_s2 = _ilu.spec_from_file_location('vt_glue2', _os.path.join(VERIF, 'props', '_glue.py')); _g2 = _ilu.module_from_spec(_s2); _s2.loader.exec_module(_g2)
 def obligations():
     L = []
     L.append(Ob('H2.layout.nch8', 'C10_layout.c', ['src/opus_multistream.c', 'celt/mathops.c'], ['-DNCH=8'], unwind=1,
@@ -42,4 +44,15 @@ def obligations():
                 unwindset=['harness:21', 'opus_projection_encoder_ctl:4'], functions=['opus_projection_encoder_ctl'], budget=600, replay=False,
                 stubs=['opus_multistream_encoder_ctl_va_list: not reached by the three matrix ctls'],
                 bounds='constructed projection encoder state: 1..3 channels, streams+coupled <= 3, stored demixing matrix of any size up to 4x4 with rows >= channels, any cells, any requested size'))
+    # the multistream encoder advances by the size opus_repacketizer_out_range_impl returns for each self-delimited stream: the C07-H2b harness
+    # (frame lengths on both sides of the 251/252 boundary) is registered here too
+    for lens, bg, en, tier in (((251, 0, 252), 0, 3, 'quick'), ((252, 1, 251), 0, 3, 'thorough')):
+        ml = max(lens); ol = sum(lens) + 10
+        L.append(Ob('H4b.self_delimited_stream_size.lens%s.range%d_%d' % ('_'.join(map(str, lens)), bg, en), 'C07_out.c', ['src/repacketizer.c', 'src/opus.c'],
+                    ['-DF=3', '-DML=%d' % ml, '-DOL=%d' % ol, '-DPADV=0', '-DLENS=%d,%d,%d' % lens, '-DBEGIN=%d' % bg, '-DEND=%d' % en], unwind=1, native_mem=True,
+                    unwindset=['harness:%d' % (3 * ml + 3), 'spec_size:4', 'opus_repacketizer_out_range_impl:%d' % (ol + 2), 'opus_packet_parse_impl:5'],
+                    functions=['opus_repacketizer_out_range_impl', 'opus_packet_parse_impl'], tier=tier, budget=900,
+                    bounds='3 frames of exactly %s bytes, range [%d,%d) (case selectors); any frame bytes, any maxlen 0..%d, both framings, pad=0' % (lens, bg, en, ol)))
+    for ns, nc, fsi, dur, tier in ((2, 1, 4, 3, 'quick'), (3, 0, 2, 2, 'thorough'), (2, 2, 0, 7, 'thorough')):
+        L.append(_g2.msenc_ob(Ob, 'H4.encoder_packing', ns, nc, fsi, dur, tier))
     return L
